@@ -18,7 +18,8 @@ import pandas as pd  # noqa: E402
 
 from vt import realrun as R  # noqa: E402
 from vt.sqlsmt import sqleval, sym  # noqa: E402
-from vt.sqlsmt.sym import Ctx, Table, Unsupported, make_input  # noqa: E402
+from vt.sqlsmt.sym import Ctx, Table, Unsupported, make_input, SV  # noqa: E402
+from vt.sqlsmt.sym import FALSE as FALSE_  # noqa: E402
 
 SQL_DIR = os.path.join(boot.SRC, "vtlengine", "duckdb_transpiler", "sql")
 _MACROS = None
@@ -32,7 +33,7 @@ def macros():
     return _MACROS
 
 
-DUCK_TYPES = {"Integer": "BIGINT", "Number": "DOUBLE", "String": "VARCHAR", "Boolean": "BOOLEAN", "Date": "DATE",
+DUCK_TYPES = {"Integer": "BIGINT", "Number": "DOUBLE", "String": "VARCHAR", "Boolean": "BOOLEAN", "Date": "TIMESTAMP",
               "Time_Period": "VARCHAR", "Time": "VARCHAR", "Duration": "VARCHAR"}
 
 
@@ -52,6 +53,8 @@ class Case:
         self.struct_dict = st
         self.pipe = R.Pipeline(self.ast, st, scalar_values=self.scalar_values)
         self.ctx = ctx = Ctx()
+        if self.opts.get("years"):
+            ctx.year_range = tuple(self.opts["years"])
         used = set()
         for name, sql, _ in self.pipe.queries:
             try:
@@ -81,6 +84,16 @@ class Case:
             n = self.nrows[s["name"]] if isinstance(self.nrows, dict) else self.nrows
             self.inputs[s["name"]] = make_input(ctx, s["name"], comps, n, int_bound=self.opts.get("int_bound", 2 ** 20),
                                                 str_maxlen=self.opts.get("str_maxlen", 2))
+        if self.opts.get("ind"):
+            # shard: every Time_Period input has this indicator (one solver query per indicator)
+            for v in ctx.input_vars:
+                if str(v).endswith(".ind"):
+                    ctx.assume.append(v == z3.StringVal(self.opts["ind"]))
+        if self.opts.get("years"):
+            lo, hi = self.opts["years"]
+            for v in ctx.input_vars:
+                if str(v).endswith(".year"):
+                    ctx.assume.append(z3.And(v >= lo, v <= hi))
         return self
 
     def encode(self):
@@ -135,7 +148,11 @@ class Case:
                         sv = r.cols[cn]
                         if not z3.is_false(sv.null):
                             asg[sv.null] = rng.random() < 0.3
-                        asg[sv.val] = self._rand_val(rng, sv.kind, role)
+                        if sv.kind == "tp":
+                            y, i_, n_ = self._rand_tp(rng, self.opts.get("ind"))
+                            asg[sv.fields["year"].val], asg[sv.fields["ind"].val], asg[sv.fields["num"].val] = y, i_, n_
+                        else:
+                            asg[sv.val] = self._rand_val(rng, sv.kind, role)
             subs = [(k, _z3val(k, v)) for k, v in asg.items()]
             ok = _simp(z3.substitute(z3.And(*self.ctx.assume), *subs)) if self.ctx.assume else z3.BoolVal(True)
             if z3.is_true(ok):
@@ -149,6 +166,27 @@ class Case:
         raise RuntimeError("no valid random assignment")
 
     @staticmethod
+    def _rand_tp(rng, ind=None):
+        import datetime
+        y = rng.choice([2019, 2020, 2020, 2021, 2024, 2015, 2016])
+        i_ = ind or rng.choice(["A", "S", "Q", "M", "W", "D", "M", "W", "D"])
+        if i_ == "A":
+            n_ = 1
+        elif i_ == "S":
+            n_ = rng.choice([1, 2])
+        elif i_ == "Q":
+            n_ = rng.choice([1, 2, 3, 4])
+        elif i_ == "M":
+            n_ = rng.choice([1, 2, 6, 11, 12])
+        elif i_ == "W":
+            wk = datetime.date(y, 12, 28).isocalendar()[1]
+            n_ = rng.choice([1, 2, 26, 51, 52, wk])
+        else:
+            dy = 366 if datetime.date(y, 12, 31).timetuple().tm_yday == 366 else 365
+            n_ = rng.choice([1, 2, 59, 60, 61, 200, 364, 365, dy])
+        return y, i_, n_
+
+    @staticmethod
     def _rand_val(rng, kind, role):
         if kind == "int":
             return rng.choice([0, 1, 2, 3, -1, -2, 5, 7]) if role != "Identifier" else rng.choice([1, 2, 3])
@@ -159,7 +197,7 @@ class Case:
         if kind == "str":
             return rng.choice(["", "a", "b", "c", "ab", "ba", "cc"]) if role != "Identifier" else rng.choice(["a", "b", "c"])
         if kind == "date":
-            return rng.choice([18262, 18263, 18300, 18627, 18628, 19000])
+            return rng.choice([18262, 18263, 18290, 18291, 18321, 18322, 18627, 18628, 18992, 19000, 16800, 16435, 16436])
         raise Unsupported(kind)
 
     def concrete_inputs(self, value_of):
@@ -173,7 +211,12 @@ class Case:
                 d = {}
                 for cn, ty, role, nullable in t.comps:
                     sv = r.cols[cn]
-                    d[cn] = None if value_of(sv.null) else value_of(sv.val)
+                    if value_of(sv.null):
+                        d[cn] = None
+                    elif sv.kind == "tp":
+                        d[cn] = render_tp(value_of(sv.fields["year"].val), value_of(sv.fields["ind"].val), value_of(sv.fields["num"].val))
+                    else:
+                        d[cn] = value_of(sv.val)
                 rows.append((value_of(r.ord[0]), d))
             rows.sort(key=lambda x: x[0])
             out[name] = [d for _, d in rows]
@@ -263,9 +306,17 @@ class Case:
     def _cell(self, sv, subs, skip_cols, c):
         if sv.kind == "null":
             return None
-        if sv.kind == "struct":
+        if sv.kind in ("struct", "sstr"):
             skip_cols.add(c)
             return None
+        if sv.kind == "tp":
+            nl = self._cell(SV("bool", FALSE_, sv.null), subs, skip_cols, c)
+            if nl:
+                return None
+            parts = [self._cell(SV(k2, FALSE_, sv.fields[k].val), subs, skip_cols, c) for k, k2 in (("year", "int"), ("ind", "str"), ("num", "int"))]
+            if c in skip_cols:
+                return None
+            return render_tp(*parts)
         nl = _simp(z3.substitute(sv.null, *subs))
         if not (z3.is_true(nl) or z3.is_false(nl)):
             if _has_uf(nl):
@@ -288,6 +339,14 @@ class Case:
         if s.check() != z3.sat:
             raise RuntimeError("assumptions unsat under concrete inputs")
         return s.model().eval(z3.substitute(term, *subs), model_completion=True)
+
+
+def render_tp(y, i, n):
+    """canonical internal spelling of a period triple"""
+    if i == "A":
+        return "%dA" % y
+    w = {"S": 1, "Q": 1, "M": 2, "W": 2, "D": 3}.get(i, 1)
+    return "%d-%s%0*d" % (y, i, w, n) if n >= 0 else "%d-%s%d" % (y, i, n)
 
 
 def _has_uf(t):
@@ -364,9 +423,9 @@ def _norm(v):
             return "nan"
         return round(v, 9) if abs(v) < 1e15 else v
     if isinstance(v, datetime.datetime):
-        return (v.date() - datetime.date(1970, 1, 1)).days
+        return float((v.date() - datetime.date(1970, 1, 1)).days)
     if isinstance(v, datetime.date):
-        return (v - datetime.date(1970, 1, 1)).days
+        return float((v - datetime.date(1970, 1, 1)).days)
     return v
 
 
